@@ -4,11 +4,76 @@ use crate::guard::catch;
 use crate::rng::{splitmix64, Digest, Rng};
 use crate::scen::{SOut, Scenario};
 use flatcontainer::impls::codec::{CodecRegion, DictionaryCodec};
-use flatcontainer::{Push, Region};
+use flatcontainer::{Push, Region, StringRegion};
 use serde_json::{json, Value as J};
 use std::collections::BTreeMap;
 
-type Reg = CodecRegion<DictionaryCodec>;
+/// The region under test: the byte-level codec region, or a string region on top of it (C04).
+pub trait DictReg: Default + 'static {
+    const STR: bool;
+    /// what the region will actually be asked to store for an operation's byte string
+    fn input(bytes: &[u8]) -> Vec<u8>;
+    fn push_bytes(&mut self, input: &[u8]) -> (usize, usize);
+    /// read back as bytes; Err if a handed-out &str is not valid UTF-8
+    fn read(&self, idx: (usize, usize)) -> Result<Vec<u8>, String>;
+    fn merge<'a>(srcs: impl Iterator<Item = &'a Self> + Clone) -> Self;
+    fn clear_reg(&mut self);
+    fn used(&self) -> usize;
+}
+
+impl DictReg for CodecRegion<DictionaryCodec> {
+    const STR: bool = false;
+    fn input(bytes: &[u8]) -> Vec<u8> {
+        bytes.to_vec()
+    }
+    fn push_bytes(&mut self, input: &[u8]) -> (usize, usize) {
+        self.push(input)
+    }
+    fn read(&self, idx: (usize, usize)) -> Result<Vec<u8>, String> {
+        Ok(self.index(idx).to_vec())
+    }
+    fn merge<'a>(srcs: impl Iterator<Item = &'a Self> + Clone) -> Self {
+        Self::merge_regions(srcs)
+    }
+    fn clear_reg(&mut self) {
+        self.clear()
+    }
+    fn used(&self) -> usize {
+        let mut u = 0;
+        self.heap_size(|a, _| u += a);
+        u
+    }
+}
+
+impl DictReg for StringRegion<CodecRegion<DictionaryCodec>> {
+    const STR: bool = true;
+    fn input(bytes: &[u8]) -> Vec<u8> {
+        // every byte string maps to a valid string (Latin-1 reading), whose UTF-8 bytes are the input
+        bytes.iter().map(|b| *b as char).collect::<String>().into_bytes()
+    }
+    fn push_bytes(&mut self, input: &[u8]) -> (usize, usize) {
+        self.push(std::str::from_utf8(input).expect("harness builds valid strings"))
+    }
+    fn read(&self, idx: (usize, usize)) -> Result<Vec<u8>, String> {
+        let s: &str = self.index(idx);
+        let b = s.as_bytes();
+        match std::str::from_utf8(b) {
+            Ok(_) => Ok(b.to_vec()),
+            Err(_) => Err(format!("&str with invalid UTF-8 bytes {:02x?}", &b[..b.len().min(24)])),
+        }
+    }
+    fn merge<'a>(srcs: impl Iterator<Item = &'a Self> + Clone) -> Self {
+        Self::merge_regions(srcs)
+    }
+    fn clear_reg(&mut self) {
+        self.clear()
+    }
+    fn used(&self) -> usize {
+        let mut u = 0;
+        self.heap_size(|a, _| u += a);
+        u
+    }
+}
 
 #[derive(Clone, Debug)]
 pub enum DOp {
@@ -21,11 +86,18 @@ pub enum DOp {
     Copy { src: usize, h: usize, dst: usize },
 }
 
-#[derive(Clone)]
-pub struct DictScen;
+pub struct DictScen<G: DictReg> {
+    pub prop: u8,
+    pub _m: std::marker::PhantomData<fn() -> G>,
+}
+impl<G: DictReg> Clone for DictScen<G> {
+    fn clone(&self) -> Self {
+        DictScen { prop: self.prop, _m: std::marker::PhantomData }
+    }
+}
 
-struct Dr {
-    r: Reg,
+struct Dr<G: DictReg> {
+    r: G,
     coded: bool,
     accept_first: [bool; 256],
     /// statistics the dictionary of this region was built from (sum over the merge sources)
@@ -44,14 +116,12 @@ struct Dr {
     generation: u32,
 }
 
-fn fresh() -> Dr {
+fn fresh<G: DictReg>() -> Dr<G> {
     Dr { r: Default::default(), coded: false, accept_first: [false; 256], dict_counts: BTreeMap::new(), dict_total: 0, exact: true, counts: BTreeMap::new(), first_seen: [false; 256], pushes: 0, empties: 0, dict_empties: 0, own_exact: true, model: Vec::new(), generation: 0 }
 }
 
-fn used(r: &Reg) -> usize {
-    let mut u = 0;
-    r.heap_size(|a, _| u += a);
-    u
+fn used<G: DictReg>(r: &G) -> usize {
+    r.used()
 }
 
 fn m_string(i: usize) -> Vec<u8> {
@@ -141,12 +211,13 @@ fn train_strings(kind: u8, n: u32, seed: u32) -> Vec<Vec<u8>> {
     out
 }
 
-impl DictScen {
+impl<G: DictReg> DictScen<G> {
     fn run(&self, ops: &[DOp]) -> SOut {
         let mut out = SOut::default();
         let mut dig = Digest::default();
-        let mut pop: Vec<Dr> = vec![fresh()];
-        let fail = |o: &str, step: usize, d: String| Some((format!("C07/dict/{o}"), step, d));
+        let mut pop: Vec<Dr<G>> = vec![fresh()];
+        let prop = self.prop;
+        let fail = |o: &str, step: usize, d: String| Some((format!("C{prop:02}/dict/{o}"), step, d));
 
         macro_rules! reread {
             ($ci:expr, $all:expr, $step:expr) => {{
@@ -157,10 +228,11 @@ impl DictScen {
                         continue;
                     }
                     let (idx, bytes) = &pop[ci].model[mi];
-                    let r = catch(|| pop[ci].r.index(*idx).to_vec());
+                    let r = catch(|| pop[ci].r.read(*idx));
                     let bad = match r {
-                        Ok(got) if got == *bytes => None,
-                        Ok(got) => Some(format!("read {:?} expected {:?}", crate::trunc(&format!("{:?}", got), 120), crate::trunc(&format!("{:?}", bytes), 120))),
+                        Ok(Ok(got)) if got == *bytes => None,
+                        Ok(Ok(got)) => Some(format!("read {:?} expected {:?}", crate::trunc(&format!("{:?}", got), 120), crate::trunc(&format!("{:?}", bytes), 120))),
+                        Ok(Err(e)) => Some(e),
                         Err(p) => Some(format!("read panicked: {}", p.short())),
                     };
                     if let Some(d) = bad {
@@ -177,12 +249,13 @@ impl DictScen {
         macro_rules! do_push {
             ($ci:expr, $bytes:expr, $step:expr, $check_economy:expr) => {{
                 let ci: usize = $ci;
-                let bytes: &Vec<u8> = $bytes;
+                let converted: Vec<u8> = G::input($bytes);
+                let bytes: &Vec<u8> = &converted;
                 let legit_refusal = pop[ci].coded && !bytes.is_empty() && !pop[ci].accept_first[bytes[0] as usize];
                 let before = used(&pop[ci].r);
                 let r = {
                     let reg = &mut pop[ci].r;
-                    catch(|| reg.push(bytes.as_slice()))
+                    catch(|| reg.push_bytes(bytes.as_slice()))
                 };
                 match r {
                     Err(p) => {
@@ -275,7 +348,7 @@ impl DictScen {
                 }
                 DOp::Clear { t } => {
                     let ci = t % pop.len();
-                    if let Err(p) = catch(|| pop[ci].r.clear()) {
+                    if let Err(p) = catch(|| pop[ci].r.clear_reg()) {
                         out.fail = fail("clear-panicked", step, p.short());
                         return out;
                     }
@@ -301,10 +374,12 @@ impl DictScen {
                     let mi = h % pop[si].model.len();
                     let bytes = pop[si].model[mi].1.clone();
                     // the read item of a codec region is a plain byte slice
-                    let got = catch(|| pop[si].r.index(pop[si].model[mi].0).to_vec());
+                    let got = catch(|| pop[si].r.read(pop[si].model[mi].0));
                     match got {
-                        Ok(g) if g == bytes => {
-                            if do_push!(di, &g, step, true) {
+                        Ok(Ok(g)) if g == bytes => {
+                            // `g` is already in stored form: feed it through the identity of the byte mode
+                            let raw: Vec<u8> = if G::STR { String::from_utf8_lossy(&g).chars().map(|c| c as u32 as u8).collect() } else { g.clone() };
+                            if do_push!(di, &raw, step, true) {
                                 out.hit("copy");
                                 let di2 = di.min(pop.len() - 1);
                                 reread!(di2, false, step);
@@ -321,7 +396,7 @@ impl DictScen {
                         pop.remove(0);
                     }
                     let idxs: Vec<usize> = srcs.iter().map(|s| s % pop.len()).collect();
-                    let r = catch(|| Reg::merge_regions(idxs.iter().map(|i| &pop[*i].r)));
+                    let r = catch(|| G::merge(idxs.iter().map(|i| &pop[*i].r)));
                     let reg = match r {
                         Ok(r) => r,
                         Err(p) => {
@@ -378,10 +453,10 @@ impl DictScen {
     }
 }
 
-impl Scenario for DictScen {
+impl<G: DictReg> Scenario for DictScen<G> {
     type Op = DOp;
     fn name(&self) -> String {
-        "CodecRegion<DictionaryCodec>".into()
+        if G::STR { "StringRegion<CodecRegion<DictionaryCodec>>".into() } else { "CodecRegion<DictionaryCodec>".into() }
     }
     fn engine(&self) -> &'static str {
         "dict"
